@@ -319,6 +319,13 @@ def generate(rng, tier):
             yield _case([[["t", "a.A", TOP], ["t", "a.B", "a.A"], ["f", "a.A", "f", FSL, e1]],
                          [["t", "a.A", TOP], ["t", "a.B", "a.A"], ["f", "a.B", "f", FSL, e2]]], "named")
         yield _case([[["t", "a.A", ANN], ["f", "a.A", "f", STR, ANN]], [["t", "a.A", ANN], ["f", "a.A", "f", STR, None]]], "named")
+        # an input repeated after a merge that re-parented one of its types (the merged system then lists the type before
+        # its new supertype): every grouping, e.g. merge(merge(a, b), b), must keep the features a declared
+        yield _case([[["t", "a.T", ANN], ["f", "a.T", "f", STR, None]], [["t", "a.S", ANN], ["t", "a.T", "a.S"]],
+                     [["t", "a.S", ANN], ["t", "a.T", "a.S"]]], "named")
+        yield _case([[["t", "a.T", TOP], ["f", "a.T", "f", INT, None], ["t", "a.U", "a.T"], ["f", "a.U", "g", STR, None]],
+                     [["t", "a.S", TOP], ["t", "a.T", "a.S"], ["t", "a.U", "a.T"]],
+                     [["t", "a.S", TOP], ["t", "a.T", "a.S"], ["t", "a.U", "a.T"]]], "named")
     n_rand = {"quick": 560, "thorough": 6000, "search": 6000}[tier]
     for r in range(n_rand):
         n_inputs = 3 if r % (7 if tier == "quick" else 4) == 3 else 2
